@@ -2,7 +2,13 @@ package main
 
 import (
 	"encoding/hex"
+	"fmt"
+	"image/color"
+	"reflect"
 	"strconv"
+	"strings"
+
+	"github.com/boombuler/barcode"
 )
 
 func atoi(s string) int {
@@ -33,3 +39,53 @@ func tohex(b []byte) string {
 }
 
 func itoa(i int) string { return strconv.Itoa(i) }
+
+// describe prints every observable of an encode result in canonical form:
+//   ERR                      (nil barcode, non-nil error)
+//   BOTHNIL / BOTHSET        (contract violation)
+//   OK <kind> <dims> <w>x<h> <content hex> <checksum|-> <rows of 0/1 joined by />
+// a pixel that is neither the scheme's foreground nor its background prints '?'.
+func describe(bc barcode.Barcode, err error) string {
+	if bc == nil || reflect.ValueOf(bc).IsNil() {
+		if err == nil {
+			return "BOTHNIL"
+		}
+		return "ERR"
+	}
+	if err != nil {
+		return "BOTHSET"
+	}
+	return describeBC(bc)
+}
+
+func describeBC(bc barcode.Barcode) string {
+	md := bc.Metadata()
+	b := bc.Bounds()
+	cs := "-"
+	if ics, ok := bc.(barcode.BarcodeIntCS); ok {
+		cs = itoa(ics.CheckSum())
+	}
+	var fg, bg color.Color = color.Black, color.White
+	if c, ok := bc.(barcode.BarcodeColor); ok {
+		fg, bg = c.ColorScheme().Foreground, c.ColorScheme().Background
+	}
+	var sb strings.Builder
+	for y := b.Min.Y; y < b.Max.Y; y++ {
+		if y > b.Min.Y {
+			sb.WriteByte('/')
+		}
+		for x := b.Min.X; x < b.Max.X; x++ {
+			c := bc.At(x, y)
+			switch {
+			case c == fg:
+				sb.WriteByte('1')
+			case c == bg:
+				sb.WriteByte('0')
+			default:
+				sb.WriteByte('?')
+			}
+		}
+	}
+	return fmt.Sprintf("OK %s %d %d,%d-%dx%d %s %s %s", strings.ReplaceAll(md.CodeKind, " ", "_"), md.Dimensions,
+		b.Min.X, b.Min.Y, b.Max.X, b.Max.Y, tohex([]byte(bc.Content())), cs, sb.String())
+}
